@@ -1,1 +1,43 @@
-import PyshaclModel
+/-
+  C19 — always terminates; nesting exact below the depth limit, loud error at or above it.
+
+  * Termination: `validateShape` is a total Lean function by structural recursion on
+    `fuel = max_validation_depth + 1 − depth`, which is the code's own argument (the evaluation path
+    grows by two entries per nesting level and the call fails once `len(path) // 2 ≥ limit`); the
+    path closures terminate by the potential-function argument of C03.  No Python-stack exhaustion
+    can be exhibited by the model; the harness measures it (RecursionError / wall clock).
+  * Loud at the limit, silent back-out on fresh shapes: below.
+-/
+import PyshaclProofs.DepthLemmas
+import PyshaclProofs.EvalLemmas
+namespace Pyshacl.C19
+open Pyshacl
+
+/-- a nested evaluation at or beyond the limit that reaches its constraints raises
+    "Validation path too deep" — never a silently truncated (conforming) verdict -/
+theorem at_limit_loud (c : Ctx) (rec' : Rec) (s : Shape) (fl : List Term) (p : List PathEntry)
+    (h : p.length / Caps.depthDivisor ≥ c.o.maxDepth) :
+    validateCore c rec' s fl (some p) = .error (.runtime "pathTooDeep") :=
+  validateCore_too_deep c rec' s fl p h
+
+/-- the recursion back-out heuristic never fires for a shape that does not occur earlier on the
+    evaluation path (on a non-recursive shapes graph no shape occurs twice on one path) -/
+theorem backout_silent_on_fresh_shape (path : List PathEntry) (self : Term) (k : CKind)
+    (h : ∀ i, i < path.length - 2 → path[i]? ≠ some (.shape self)) (x : Term) :
+    inTriggers (recursionTriggers path self k) x = false :=
+  triggers_silent_of_fresh path self k h x
+
+/-- obligations over the regenerated caps: the depth test is `len(path) // 2 >= limit`, the default limit is 15 -/
+theorem depth_test_shape : Caps.depthDivisor = 2 ∧ Caps.maxValidationDepth = 15 ∧ Caps.triggerMinLen = 4 ∧ Caps.triggerDepth = 3 := by decide
+
+/-! non-vacuity: a chain S0 -node-> S1 -node-> S2 with limit 2 raises, with limit 3 reports -/
+def exN (s : String) : Term := .iri ("http://ex.test/" ++ s)
+def sgChain : Graph :=
+  [⟨exN "S0", rdfType, shNodeShape⟩, ⟨exN "S0", shTargetNode, exN "a"⟩, ⟨exN "S0", shNode, exN "S1"⟩,
+   ⟨exN "S1", rdfType, shNodeShape⟩, ⟨exN "S1", shNode, exN "S2"⟩,
+   ⟨exN "S2", rdfType, shNodeShape⟩, ⟨exN "S2", sh "class", exN "C"⟩]
+example : (match runValidate { maxDepth := 2 } sgChain [] (fun _ _ _ => none) [] [] with
+    | .error (.runtime w) => w | _ => "") = "pathTooDeep" := by decide
+example : (runValidate { maxDepth := 3 } sgChain [] (fun _ _ _ => none) [] []).toOption.map (·.1) = some false := by decide
+
+end Pyshacl.C19
